@@ -23,7 +23,7 @@ git apply -R $SRC/patch.diff
 timeout 900 go test -vet=off -count=1 -run 'TestSeededDemo' $PKG > $R.without.log 2>&1; WITHOUT=$?
 git apply $SRC/patch.diff
 rm -f $WT/$PKG/zz_seeded_demo_test.go
-timeout 1500 go test -vet=off -count=1 -timeout 20m $PKG > $R.suite.log 2>&1; SUITE=$?
+flock /tmp/seed_suite.lock timeout 1500 go test -vet=off -count=1 -timeout 20m $PKG > $R.suite.log 2>&1; SUITE=$?
 CONF=ok
 if [ $WITH -eq 0 ] || [ $WITHOUT -ne 0 ] || [ $SUITE -ne 0 ]; then CONF=NOT-CONFIRMED; fi
 GOSYM_REPO=$WT GOSYM_OUT=/tmp/seedres/out_$NAME timeout 3000 $BIN check $PROP --tier $TIER > $R.check.log 2>&1; CHK=$?
